@@ -660,6 +660,37 @@ example : addHolds { addReqOk with rpc := .err, query := [("stream-channels", .v
     (addHandle { addReqOk with rpc := .err, query := [("stream-channels", .valid (.bool false))] }) = true := by decide
 example : addHolds { addReqOk with query := qAddpBad } (addHandle { addReqOk with query := qAddpBad }) = true := by decide
 
+/-! ### credentials-map corner cases (round 8 final): an empty configured password, an empty user name -/
+
+/-- **an empty configured password is not a wildcard**: with `user → ""` configured, only the empty password gets that
+    user through, and a request without a (well-formed) header gets nobody through -/
+theorem empty_password_not_wildcard (u p : String) (hp : p ≠ "") :
+    authOk Gen.authLogic [(u, "")] (.basic u p) = false ∧ authOk Gen.authLogic [(u, "")] (.basic u "") = true ∧
+    authOk Gen.authLogic [(u, "")] .none = false ∧ authOk Gen.authLogic [(u, "")] .malformed = false := by
+  refine ⟨?_, ?_, rfl, rfl⟩
+  · simp [authOk, Gen.authLogic, AuthCond.eval, Ne.symm hp]
+  · simp [authOk, Gen.authLogic, AuthCond.eval]
+
+/-- an empty configured user name is a name like any other: only the empty user with that password gets through -/
+theorem empty_user_is_a_name (u p pw : String) :
+    authOk Gen.authLogic [("", pw)] (.basic u p) = (u == "" && p == pw) := by
+  simp only [authOk, Gen.authLogic, AuthCond.eval, List.any_cons, List.any_nil, Bool.or_false]
+  rw [Bool.eq_iff_iff]
+  simp only [Bool.and_eq_true, beq_iff_eq]
+  constructor <;> rintro ⟨a, b⟩ <;> exact ⟨a.symm, b.symm⟩
+
+/-- the refuted alternative: a handler that does not test `ok` of `r.BasicAuth()` treats "no header" as the pair
+    ("", "") - with an empty user and password configured a request without any header would get through; and one that
+    only compares when the configured password is non-empty makes the empty password a wildcard -/
+theorem ok_unchecked_refuted :
+    authOk { Gen.authLogic with okChecked := false } [("", "")] .none = true ∧
+    authOk Gen.authLogic [("", "")] .none = false := by decide
+theorem user_only_refuted :
+    authOk { Gen.authLogic with cond := .atom .userEq } [("u0", "")] (.basic "u0" "whatever") = true ∧
+    authOk Gen.authLogic [("u0", "")] (.basic "u0" "whatever") = false := by decide
+
+example : authOk Gen.authLogic [("u0", "")] (.basic "u0" "") = true := by decide
+
 /-! ### the full statement (server side) now holds of the model -/
 
 /-- the property of the server request path with no deviation excluded -/
